@@ -135,7 +135,15 @@ def run_property(pid, P, tier, repo, seed):
                                 "function": o["unit"], "split": o["split"], "replayed": False})
     # a failed obligation: look for a REAL failing input by running the same contract concretely on the real function
     searched = {}
+    seen_names, uniq = set(), []
+    for r in refuted:                       # the same named obligation on several paths is one finding
+        if r["obligation"] not in seen_names:
+            seen_names.add(r["obligation"])
+            uniq.append(r)
+    refuted = uniq
     for r in refuted:
+        if r["function"].startswith("frame:"):
+            continue                        # a static frame / purity finding names the offending line; there is no input to search for
         key = (r["function"], json.dumps(r["split"], sort_keys=True))
         if key not in searched:
             searched[key] = native_search(repo, reg.contracts[r["function"]], r["split"])
